@@ -163,7 +163,7 @@ class C05(Prop):
         scripts = []; stats = {}
         for i in range(n):
             pool = ('mixplain', 'int', 'strplain', 'tup')[i % 4]
-            g = gen.Gen(rnd, pool=pool, bad=0.45, ops=dict(point=3, faces=3, basis=4, delete=2, restrict=1, subdiv=1, relabel1=1, relabel=2, addfrom=1, delb=1.5, dels=0.5, ensure=0.3, dupfaces=1.4, dupbasis=1, copyinto=1, weird=0.5), before=['check c05-pre a {line}'], after=['check c05-post a'], twin='b')
+            g = gen.Gen(rnd, pool=pool, bad=0.45, ops=dict(point=3, faces=3, basis=4, delete=2, restrict=1, subdiv=1, relabel1=1, relabel=2, addfrom=1, delb=1.5, dels=0.5, ensure=0.3, dupfaces=1.4, dupbasis=1, copyinto=1, weird=1.5), before=['check c05-pre a {line}'], after=['check c05-post a'], twin='b')
             for _ in range(rnd.randint(8, 26) if tier == 'quick' else rnd.randint(10, 40)):
                 g.step()
             g.lines.append('check twin a b')
